@@ -123,6 +123,7 @@ impl K {
             decline_methods: self.methods.expand(n_methods),
             decline_record_components: self.records.expand(n_records),
             decline_code: self.code.expand(n_methods),
+            ..Mask::default()
         }
     }
     pub fn method_interests(&self) -> MethodInterests {
